@@ -99,8 +99,16 @@ impl<'a> Lexer<'a> {
     }
 
     fn block_comment(&mut self) -> TokenKind {
-        self.s.eat_until("*/");
-        self.s.eat_if("*/");
+        let mut depth = 1;
+        while depth > 0 && !self.s.done() {
+            if self.s.eat_if("/*") {
+                depth += 1;
+            } else if self.s.eat_if("*/") {
+                depth -= 1;
+            } else {
+                self.s.eat();
+            }
+        }
         TokenKind::BlockComment
     }
 
